@@ -1,4 +1,4 @@
-/- C17 helper lemmas. -/
+/- C17 helper lemmas: skip-list ancestor = naive parent walk. Core-only. -/
 import BV.C17.Model
 namespace BV.C17.Lemmas
 open BV.C17
@@ -11,5 +11,253 @@ theorem getAncestorHeight_lt (h : Nat) (hp : 0 < h) : getAncestorHeight h < h :=
   have h1 := invertLowestOne_le h
   have h2 := invertLowestOne_le (invertLowestOne h)
   omega
+
+/-- `k` parent links up from `n` -/
+def walk (idx : Index) : Nat → Nat → Option Nat
+  | 0, n => some n
+  | k+1, n => match idx.parent n with
+    | none => none
+    | some p => walk idx k p
+
+theorem walk_zero (idx : Index) (n : Nat) : walk idx 0 n = some n := rfl
+theorem walk_succ (idx : Index) (k n : Nat) : walk idx (k+1) n =
+    match idx.parent n with
+    | none => none
+    | some p => walk idx k p := rfl
+
+/-- well-formed index: parents have smaller ids and height one less; roots have height 0;
+    the stored skip pointer of a non-root is its naive ancestor at `getAncestorHeight height`. -/
+structure WF (idx : Index) : Prop where
+  root : ∀ (n : Nat) (nd : Node), idx[n]? = some nd → nd.parent = none → nd.height = 0
+  par : ∀ (n : Nat) (nd : Node) (p : Nat), idx[n]? = some nd → nd.parent = some p → p < n ∧ idx.height p + 1 = nd.height
+  skip : ∀ (n : Nat) (nd : Node), idx[n]? = some nd → nd.parent ≠ none →
+    nd.ancestor = walk idx (nd.height - getAncestorHeight nd.height) n
+
+theorem height_of {idx : Index} {n : Nat} {nd : Node} (h : idx[n]? = some nd) :
+    idx.height n = nd.height := by simp [Index.height, h]
+
+theorem parent_of {idx : Index} {n : Nat} {nd : Node} (h : idx[n]? = some nd) :
+    idx.parent n = nd.parent := by simp [Index.parent, h]
+
+theorem lookup_lt {idx : Index} {n : Nat} (h : n < idx.size) : ∃ nd, idx[n]? = some nd :=
+  ⟨idx[n], by simp [h]⟩
+
+theorem lt_of_lookup {idx : Index} {n : Nat} {nd : Node} (h : idx[n]? = some nd) : n < idx.size := by
+  by_cases hn : n < idx.size
+  · exact hn
+  · simp [Array.getElem?_eq_none (Nat.le_of_not_lt hn)] at h
+
+theorem walk_add (idx : Index) : ∀ (k j n m : Nat), walk idx k n = some m →
+    walk idx (k + j) n = walk idx j m
+  | 0, j, n, m, h => by simp [walk] at h; subst h; simp
+  | k+1, j, n, m, h => by
+    have : k + 1 + j = (k + j) + 1 := by omega
+    rw [this, walk_succ]
+    rw [walk_succ] at h
+    cases hp : idx.parent n with
+    | none => simp [hp] at h
+    | some p => simp only [hp] at h ⊢; exact walk_add idx k j p m h
+
+/-- under WF a walk of at most `height n` links succeeds and lands at the expected height -/
+theorem walk_spec {idx : Index} (wf : WF idx) : ∀ (k n : Nat), n < idx.size → k ≤ idx.height n →
+    ∃ m, walk idx k n = some m ∧ m < idx.size ∧ idx.height m = idx.height n - k ∧ m ≤ n
+  | 0, n, hn, _ => ⟨n, rfl, hn, by omega, Nat.le_refl _⟩
+  | k+1, n, hn, hk => by
+    obtain ⟨nd, hnd⟩ := lookup_lt hn
+    have hh := height_of hnd
+    cases hp : nd.parent with
+    | none => have := wf.root n nd hnd hp; omega
+    | some p =>
+      obtain ⟨hpn, hph⟩ := wf.par n nd p hnd hp
+      obtain ⟨m, hm, hms, hmh, hmn⟩ := walk_spec wf k p (by omega) (by omega)
+      refine ⟨m, ?_, hms, by omega, by omega⟩
+      unfold walk; rw [parent_of hnd, hp]; exact hm
+
+theorem height_le_id {idx : Index} (wf : WF idx) (n : Nat) (hn : n < idx.size) : idx.height n ≤ n := by
+  induction n using Nat.strongRecOn with
+  | _ n ih =>
+    obtain ⟨nd, hnd⟩ := lookup_lt hn
+    have hh := height_of hnd
+    cases hp : nd.parent with
+    | none => have := wf.root n nd hnd hp; omega
+    | some p =>
+      obtain ⟨hpn, hph⟩ := wf.par n nd p hnd hp
+      have := ih p hpn (by omega); omega
+
+/-- the loop of `Ancestor` computes the naive walk; any fuel ≥ height difference + 1 suffices -/
+theorem ancLoop_eq_walk {idx : Index} (wf : WF idx) : ∀ (f n t : Nat), n < idx.size →
+    t ≤ idx.height n → idx.height n - t + 1 ≤ f →
+    ancLoop idx f n t = walk idx (idx.height n - t) n
+  | 0, _, _, _, _, hf => by omega
+  | f+1, n, t, hn, ht, hf => by
+    obtain ⟨nd, hnd⟩ := lookup_lt hn
+    have hh := height_of hnd
+    have hpar := parent_of hnd
+    unfold ancLoop
+    simp only [hnd]
+    by_cases heq : nd.height = t
+    · simp [heq, hh, walk]
+    · simp only [heq, if_false]
+      have hgt : t < nd.height := by omega
+      have hgah := getAncestorHeight_lt nd.height (by omega)
+      -- the parent step, shared by three branches
+      have parentStep : ∀ p, nd.parent = some p →
+          ancLoop idx f p t = walk idx (idx.height n - t) n := by
+        intro p hp
+        obtain ⟨hpn, hph⟩ := wf.par n nd p hnd hp
+        rw [ancLoop_eq_walk wf f p t (by omega) (by omega) (by omega)]
+        have : idx.height n - t = (idx.height p - t) + 1 := by omega
+        rw [this]
+        conv => rhs; unfold walk
+        rw [hpar, hp]
+      cases hp : nd.parent with
+      | none => have := wf.root n nd hnd hp; omega
+      | some p =>
+        cases ha : nd.ancestor with
+        | none => simp only []; exact parentStep p hp
+        | some a =>
+          simp only []
+          by_cases hge : getAncestorHeight nd.height ≥ t
+          · simp only [hge, if_true]
+            have hsk := wf.skip n nd hnd (by simp [hp])
+            rw [ha] at hsk
+            obtain ⟨m, hm, hms, hmh, _⟩ := walk_spec wf (nd.height - getAncestorHeight nd.height) n hn (by omega)
+            rw [hm] at hsk
+            have ham : a = m := by injection hsk
+            subst ham
+            rw [ancLoop_eq_walk wf f a t hms (by omega) (by omega)]
+            have := walk_add idx (nd.height - getAncestorHeight nd.height) (idx.height a - t) n a hm
+            rw [← this]
+            congr 1; omega
+          · simp only [hge, if_false]; exact parentStep p hp
+
+/-- `Ancestor(height)` = `none` outside `[0, height n]`, the naive walk inside -/
+theorem ancestor_eq_walk {idx : Index} (wf : WF idx) (n : Nat) (hn : n < idx.size) (h : Int) :
+    ancestor idx n h =
+      if h < 0 ∨ h > idx.height n then none else walk idx (idx.height n - h.toNat) n := by
+  unfold ancestor
+  by_cases hc : h < 0 ∨ h > idx.height n
+  · simp [hc]
+  · simp only [hc, if_false]
+    exact ancLoop_eq_walk wf _ n h.toNat hn (by omega) (by omega)
+
+/-! ### building an index keeps it well-formed -/
+
+theorem wf_genesis : WF genesisIndex := by
+  refine ⟨?_, ?_, ?_⟩
+  · intro n nd h _
+    have : n = 0 := by
+      have := lt_of_lookup h; simp [genesisIndex] at this; exact this
+    subst this; simp [genesisIndex] at h; subst h; rfl
+  · intro n nd p h hp
+    have : n = 0 := by
+      have := lt_of_lookup h; simp [genesisIndex] at this; exact this
+    subst this; simp [genesisIndex] at h; subst h; simp at hp
+  · intro n nd h hp
+    have : n = 0 := by
+      have := lt_of_lookup h; simp [genesisIndex] at this; exact this
+    subst this; simp [genesisIndex] at h; subst h; simp at hp
+
+theorem height_push (idx : Index) (x : Node) (n : Nat) (hn : n < idx.size) :
+    Index.height (idx.push x) n = idx.height n := by
+  rw [Index.height, Index.height, Array.getElem?_push_lt hn, Array.getElem?_eq_getElem hn]
+
+theorem parent_push (idx : Index) (x : Node) (n : Nat) (hn : n < idx.size) :
+    Index.parent (idx.push x) n = idx.parent n := by
+  rw [Index.parent, Index.parent, Array.getElem?_push_lt hn, Array.getElem?_eq_getElem hn]
+
+theorem walk_push {idx : Index} (wf : WF idx) (x : Node) : ∀ (k n : Nat), n < idx.size →
+    walk (idx.push x) k n = walk idx k n
+  | 0, _, _ => rfl
+  | k+1, n, hn => by
+    unfold walk
+    rw [parent_push idx x n hn]
+    obtain ⟨nd, hnd⟩ := lookup_lt hn
+    rw [parent_of hnd]
+    cases hp : nd.parent with
+    | none => rfl
+    | some p =>
+      have := (wf.par n nd p hnd hp).1
+      exact walk_push wf x k p (by omega)
+
+theorem wf_addNode {idx : Index} (wf : WF idx) (p : Nat) (hp : p < idx.size) : WF (addNode idx p) := by
+  have hgah := getAncestorHeight_lt (idx.height p + 1) (by omega)
+  -- the new node's skip pointer
+  have hanc : ancestor idx p (getAncestorHeight (idx.height p + 1) : Nat) =
+      walk idx (idx.height p - getAncestorHeight (idx.height p + 1)) p := by
+    rw [ancestor_eq_walk wf p hp]
+    have : ¬ (((getAncestorHeight (idx.height p + 1) : Nat) : Int) < 0 ∨
+        ((getAncestorHeight (idx.height p + 1) : Nat) : Int) > idx.height p) := by omega
+    simp only [this, if_false, Int.toNat_natCast]
+  unfold addNode
+  simp only []
+  generalize hx : (Node.mk (some p) (ancestor idx p (getAncestorHeight (idx.height p + 1)))
+      (idx.height p + 1)) = x
+  have hxp : x.parent = some p := by subst hx; rfl
+  have hxa : x.ancestor = ancestor idx p (getAncestorHeight (idx.height p + 1)) := by subst hx; rfl
+  have hxh : x.height = idx.height p + 1 := by subst hx; rfl
+  clear hx
+  have lk : ∀ (n : Nat) (nd : Node), (idx.push x)[n]? = some nd →
+      (n < idx.size ∧ idx[n]? = some nd) ∨ (n = idx.size ∧ nd = x) := by
+    intro n nd h
+    rw [Array.getElem?_push] at h
+    by_cases hn : n = idx.size
+    · right; simp [hn] at h; exact ⟨hn, h.symm⟩
+    · left; simp only [hn, if_false] at h; exact ⟨lt_of_lookup h, h⟩
+  refine ⟨?_, ?_, ?_⟩
+  · intro n nd h hpn
+    rcases lk n nd h with ⟨_, h'⟩ | ⟨_, h'⟩
+    · exact wf.root n nd h' hpn
+    · subst h'; rw [hxp] at hpn; cases hpn
+  · intro n nd q h hq
+    rcases lk n nd h with ⟨hn, h'⟩ | ⟨hn, h'⟩
+    · obtain ⟨a, b⟩ := wf.par n nd q h' hq
+      exact ⟨a, by rw [height_push idx x q (by omega)]; exact b⟩
+    · subst h'; rw [hxp] at hq; injection hq with hq; subst hq
+      exact ⟨by omega, by rw [height_push idx _ p hp, hxh]⟩
+  · intro n nd h hpn
+    rcases lk n nd h with ⟨hn, h'⟩ | ⟨hn, h'⟩
+    · rw [walk_push wf x _ n hn]; exact wf.skip n nd h' hpn
+    · subst h'; subst hn
+      rw [hxa, hanc, hxh]
+      have : idx.height p + 1 - getAncestorHeight (idx.height p + 1) =
+          (idx.height p - getAncestorHeight (idx.height p + 1)) + 1 := by omega
+      rw [this, walk_succ]
+      have : Index.parent (idx.push nd) idx.size = some p := by
+        simp [Index.parent, hxp]
+      rw [this]
+      simp only []
+      rw [walk_push wf _ _ p hp]
+
+/-- parent lists: node `i+1` names a parent among nodes `0..i` (`base` nodes exist already) -/
+def ValidFrom (base : Nat) : List Nat → Prop
+  | [] => True
+  | p :: ps => p < base ∧ ValidFrom (base + 1) ps
+
+instance : ∀ base ps, Decidable (ValidFrom base ps)
+  | _, [] => isTrue trivial
+  | base, p :: ps =>
+    have := instDecidableValidFrom (base + 1) ps
+    if h : p < base then
+      if h2 : ValidFrom (base + 1) ps then isTrue ⟨h, h2⟩ else isFalse (fun c => h2 c.2)
+    else isFalse (fun c => h c.1)
+
+theorem size_addNode (idx : Index) (p : Nat) : (addNode idx p).size = idx.size + 1 := by
+  simp [addNode]
+
+theorem wf_foldl : ∀ (ps : List Nat) (idx : Index), WF idx → ValidFrom idx.size ps →
+    WF (ps.foldl addNode idx) ∧ (ps.foldl addNode idx).size = idx.size + ps.length
+  | [], idx, wf, _ => ⟨wf, by simp⟩
+  | p :: ps, idx, wf, hv => by
+    simp only [List.foldl_cons]
+    have := wf_foldl ps (addNode idx p) (wf_addNode wf p hv.1) (by rw [size_addNode]; exact hv.2)
+    refine ⟨this.1, ?_⟩
+    rw [this.2, size_addNode]; simp; omega
+
+theorem wf_build (ps : List Nat) (hv : ValidFrom 1 ps) :
+    WF (build ps) ∧ (build ps).size = ps.length + 1 := by
+  have := wf_foldl ps genesisIndex wf_genesis (by simpa [genesisIndex] using hv)
+  refine ⟨this.1, ?_⟩
+  rw [build, this.2]; simp [genesisIndex]; omega
 
 end BV.C17.Lemmas
